@@ -420,6 +420,14 @@ theorem iso_text (uk : Bool) (y m d : Nat) (v : Valid y m d) (yy mm dd tm : List
   simp only [Option.map_some]
   rw [if_neg ht.nonneg, decide_plain uk y m d v hms us]
 
+/-- the ISO clause for `dt(<string>)` itself (`dtStr`): the text passes `strip` and `squeeze` unchanged -/
+theorem iso_str (uk : Bool) (y m d : Nat) (v : Valid y m d) (yy mm dd tm : List Char) (hms us : Int)
+    (hyy : IsNumeral 4 yy) (hy4 : yy.length = 4) (hmm : IsNumeral 2 mm) (hm2 : mm.length = 2) (hdd : IsNumeral 2 dd) (hd2 : dd.length = 2)
+    (vy : digitsVal yy = y) (vm : digitsVal mm = m) (vd : digitsVal dd = d) (ht : TimeText tm hms us) :
+    dtStr uk (String.ofList (yy ++ '-' :: (mm ++ '-' :: (dd ++ tm)))) = some (checkRange (mkDate y m d + hms + us)) := by
+  unfold dtStr
+  rw [String.toList_ofList, clean_iso yy mm dd tm hms us hyy hmm hdd ht]
+  exact iso_text uk y m d v yy mm dd tm hms us hyy hy4 hmm hm2 hdd hd2 vy vm vd ht
 /-- the ISO date alone, as `strftime('%Y-%m-%d')` writes it -/
 theorem iso_date_text (uk : Bool) (y m d : Nat) (v : Valid y m d) :
     dtCs uk (pad4 y ++ '-' :: (pad2 m ++ '-' :: (pad2 d ++ []))) = some (.ok (mkDate y m d)) := by
